@@ -7,6 +7,7 @@ import (
 	"strings"
 
 	schema "github.com/jsightapi/jsight-schema-core"
+	"github.com/jsightapi/jsight-schema-core/kit"
 	"github.com/jsightapi/jsight-schema-core/notations/jschema"
 	"github.com/jsightapi/jsight-schema-core/notations/jschema/ischema"
 
@@ -113,6 +114,12 @@ func (core *JApiCore) setPathVariablesToCatalog() *jerr.JApiError {
 // pathVariablesError locates a failure to assemble the path variables of an interaction at
 // the Path directive that describes one of its parameters.
 func (core *JApiCore) pathVariablesError(pp []PathParameter, err error) *jerr.JApiError {
+	msg := err.Error()
+	var e kit.Error
+	if errors.As(err, &e) {
+		// the position inside the assembled schema means nothing to the user
+		msg = e.Message()
+	}
 	for i := range core.rawPathVariables {
 		if core.rawPathVariables[i].imitated {
 			continue
@@ -120,12 +127,12 @@ func (core *JApiCore) pathVariablesError(pp []PathParameter, err error) *jerr.JA
 		for _, q := range core.rawPathVariables[i].parameters {
 			for _, p := range pp {
 				if p == q {
-					return core.rawPathVariables[i].pathDirective.KeywordError(err.Error())
+					return core.rawPathVariables[i].pathDirective.KeywordError(msg)
 				}
 			}
 		}
 	}
-	return core.japiError(err.Error(), 0)
+	return core.japiError(msg, 0)
 }
 
 func (core *JApiCore) checkPathSchema(s *jschema.JSchema) error {
